@@ -75,6 +75,10 @@ func blockingOps(fn *ssa.Function) []blockOp {
 // opKey is a structural key: function + kind + channel fields involved (no positions).
 func opKey(op blockOp) string {
 	short := func(s string) string {
+		// the protocol's done channel reads the same whatever the receiver expression looks like
+		if strings.HasPrefix(s, "call:protocol.(*Protocol).DoneChan(") {
+			return "DoneChan()"
+		}
 		// keep the trailing field path of the channel
 		if i := strings.LastIndex(s, "."); i >= 0 && !strings.HasPrefix(s, "call:") {
 			return s[i+1:]
@@ -280,11 +284,15 @@ func runC15(c *Ctx) {
 		for _, op := range blockingOps(f) {
 			nH++
 			ok, why := wakeable(op, func(ch string) bool { return suffixIn(ch, Wh) })
-			if !ok {
-				ok, why = c.auditedNonBlocking(op)
+			if ok {
+				c.Ok("handler-op", opKey(op), op.instr.Pos(), why)
+				continue
 			}
-			c.Check(ok, "handler-op", opKey(op), op.instr.Pos(), why,
-				"runs on the protocol's recvLoop goroutine (handler context) and can block forever: "+op.desc+" — DoneChan()/recvDoneChan cannot fire while recvLoop is inside a handler, so neither Stop() nor connection shutdown wakes it")
+			for _, st := range c.opSites(op, func(g *ssa.Function) bool { return H[g] && !inLoops[g] }, 2) {
+				ok, why = c.auditedNonBlocking(st.op)
+				c.Check(ok, "handler-op", opKey(st.op), st.op.instr.Pos(), why,
+					"runs on the protocol's recvLoop goroutine (handler context) and can block forever: "+op.desc+" — DoneChan()/recvDoneChan cannot fire while recvLoop is inside a handler, so neither Stop() nor connection shutdown wakes it")
+			}
 		}
 	}
 	c.Note("handler-context blocking operations: %d", nH)
@@ -315,10 +323,14 @@ func runC15(c *Ctx) {
 			ok, why := wakeable(op, func(ch string) bool {
 				return suffixIn(ch, W) || strings.Contains(ch, "DoneChan()") || strings.Contains(ch, ".DoneChan(") || strings.HasSuffix(ch, ".doneChan") || strings.HasSuffix(ch, ".connClosedChan") || strings.HasSuffix(ch, ".stopChan")
 			})
-			if !ok {
-				ok, why = c.auditedNonBlocking(op)
+			if ok {
+				c.Ok("api-op", opKey(op), op.instr.Pos(), why)
+				continue
 			}
-			c.Check(ok, "api-op", opKey(op), op.instr.Pos(), why, "caller-context operation can block forever after the protocol/connection is done: "+op.desc)
+			for _, st := range c.opSites(op, func(g *ssa.Function) bool { return api[g] }, 2) {
+				ok, why = c.auditedNonBlocking(st.op)
+				c.Check(ok, "api-op", opKey(st.op), st.op.instr.Pos(), why, "caller-context operation can block forever after the protocol/connection is done: "+op.desc)
+			}
 		}
 	}
 	c.Note("API/connection-context blocking operations: %d", nA)
@@ -333,6 +345,57 @@ func runC15(c *Ctx) {
 			c.Check(ok, "muxer-op", opKey(op), op.instr.Pos(), why, "muxer goroutine can block forever: "+op.desc)
 		}
 	}
+}
+
+// opSites: the key(s) an operation is judged under. Normally the operation's own key. When the operation sits in a
+// helper that has no audit entry of its own but every caller in the same goroutine context has one for the same
+// operation (the hand-off was moved out of the audited function into a helper), it is judged once per calling site
+// under the caller's key, so that audited and known hand-offs keep their identity when code is merely moved.
+type opSite struct {
+	op blockOp
+}
+
+func (c *Ctx) opSites(op blockOp, inCtx func(*ssa.Function) bool, depth int) []opSite {
+	loadAudit()
+	if _, ok := auditTable[opKey(op)]; ok || depth <= 0 {
+		return []opSite{{op}}
+	}
+	if op.fn.Parent() == nil && op.fn.Object() != nil && op.fn.Object().Exported() {
+		return []opSite{{op}}
+	}
+	var out []opSite
+	for _, ci := range callersInPkg(op.fn) {
+		if _, isGo := ci.(*ssa.Go); isGo || !inCtx(ci.Parent()) {
+			continue
+		}
+		sub := func(list []string) []string {
+			var r []string
+			for _, s := range list {
+				for i, a := range ci.Common().Args {
+					if s == fmt.Sprintf("p%d", i) {
+						s = desc(a)
+					}
+				}
+				r = append(r, s)
+			}
+			return r
+		}
+		op2 := op
+		op2.fn = ci.Parent()
+		op2.instr = ci
+		op2.sends, op2.recvs = sub(op.sends), sub(op.recvs)
+		sites := c.opSites(op2, inCtx, depth-1)
+		for _, st := range sites {
+			if _, ok := auditTable[opKey(st.op)]; !ok {
+				return []opSite{{op}} // some calling site is not covered: report the operation where it is
+			}
+		}
+		out = append(out, sites...)
+	}
+	if len(out) == 0 {
+		return []opSite{{op}}
+	}
+	return out
 }
 
 // engineOpOK: operation of an engine loop is wake-able by W (or audited).
